@@ -85,10 +85,10 @@ _sha1_self_test(void)
         if (ctx) {
                 for (j = 0; j < ISAL_SHA1_DIGEST_NWORDS; j++) {
                         if (expResultDigest_sha1[j] != ctxpool.job.result_digest[j])
-                                return -1;
+                                return 1;
                 }
         } else
-                return -1;
+                return 1;
 
         return 0;
 }
@@ -115,10 +115,10 @@ _sha256_self_test(void)
         if (ctx) {
                 for (j = 0; j < ISAL_SHA256_DIGEST_NWORDS; j++) {
                         if (expResultDigest_sha256[j] != ctxpool.job.result_digest[j])
-                                return -1;
+                                return 1;
                 }
         } else
-                return -1;
+                return 1;
 
         return 0;
 }
@@ -145,10 +145,10 @@ _sha512_self_test(void)
         if (ctx) {
                 for (j = 0; j < ISAL_SHA512_DIGEST_NWORDS; j++) {
                         if (expResultDigest_sha512[j] != ctxpool.job.result_digest[j])
-                                return -1;
+                                return 1;
                 }
         } else
-                return -1;
+                return 1;
 
         return 0;
 }
